@@ -125,9 +125,14 @@ func run(c *mc.Ctx) {
 		if root.Trigger == "voice" {
 			events = append(append([]string{}, world.Events...), "dial:answered", "dial:busy")
 		}
-		cfg := sm.Cfg{Ctx: c, Depth: depth, Events: events, Regimes: []bool{false, true}, ChoiceBound: bound}
+		cfg := sm.Cfg{Ctx: c, Depth: depth, Events: events, Regimes: []bool{false, true}, ChoiceBound: bound, MaxTransitions: 120000}
 		cfg.Visit = func(t *sm.Trans) bool { return visit(c, t) }
 		st := sm.Search(root, cfg)
+		if st.Truncated {
+			// a cycle through a random router: ~8^depth path shapes under two deviations per sprint
+			c.Inc("roots_truncated_at_the_transition_bound")
+			c.Cap(fmt.Sprintf("some roots have more than %d transitions per regime below them (random routers in cycles); those were explored breadth-first, completely to depth %d at least, and every transition executed was checked", cfg.MaxTransitions, st.CompleteDepth))
+		}
 		if st.MaxSprintSteps > TightLimit {
 			tight := *root
 			tight.Opt.MaxSteps = TightLimit
